@@ -301,10 +301,16 @@ def run(chk):
                 problems.append("component loop [%s %s %s)" % (sym.show(lp["lo"]), lp["cmp"], sym.show(lp["hi"])))
             if mul[0]["args"] != [P(res, "b"), sym.addr(sym.idx(P(key, "key"), i)), sym.addr(sym.idx(P(res, "a"), i))]:
                 problems.append("product operands %s" % [sym.show(a) for a in mul[0]["args"]])
-        noise = [p for p in eps if p["kind"] == "store" and p["val"][0] == "call" and p["val"][1] == "gaussian32"]
-        if len(noise) != 1 or noise[0]["lv"] != sym.idx(sym.arrow(P(res, "b"), "coefsT"), noise[0]["loops"][0]["var"]) or \
-                (noise[0]["loops"][0]["lo"], noise[0]["loops"][0]["hi"]) != (ZERO, Nn) or noise[0]["val"][2][0] != ZERO:
-            problems.append("b is not initialised to gaussian32(0, alpha) in all N coefficients")
+        from sa import coverage
+        fps = summ.forward_local_arrays(eps)          # a draw may reach b through a scratch buffer private to the call
+        stn, detn, n_noise = coverage.filled_by(
+            fps, sym.arrow(P(res, "b"), "coefsT"), Nn,
+            lambda val, ix: None if (val[0] == "call" and val[1] == "gaussian32" and val[2][0] == ZERO) else
+            "b[%s] = %s is not gaussian32(0, alpha)" % (sym.show(ix), sym.show(val)[:60]))
+        if stn == "unknown":
+            chk.broken("tLweSymEncryptZero: noise statements: %s" % detn)
+        if stn == "refuted":
+            problems.append("b is not initialised to gaussian32(0, alpha) in all N coefficients: %s" % detn)
         chk.require(not problems, "R2", "tLweSymEncryptZero: b = noise + sum_{i<k} key[i]*a[i]", where=ez.where,
                     ok="b[j] = gaussian32(0,alpha), j<N; AddMulR(b, key[i], a[i]) for i<k", bad="; ".join(problems), variant=vn)
         tp = v.fn("tLwePhase")
